@@ -30,6 +30,9 @@ pub enum C18Case {
         /// BED name column made of two-byte UTF-8 characters (probes can land inside a character)
         #[serde(default)]
         utf8: bool,
+        /// lines end in CR LF
+        #[serde(default)]
+        crlf: bool,
     },
     /// FileView over a 10-byte file: window [a, b)
     View { a: u64, b: u64, depth: usize },
@@ -132,8 +135,17 @@ fn records_view(path: &std::path::Path, start: u64, end: u64, bed: bool) -> Vec<
     v
 }
 
-fn c18_text(runs: &[(usize, usize)], long_line: Option<(usize, usize)>, final_newline: bool, bed: bool, utf8: bool, out: &mut Outcome) {
-    let lines = text_lines(runs, long_line, bed, utf8);
+fn c18_text(runs: &[(usize, usize)], long_line: Option<(usize, usize)>, final_newline: bool, bed: bool, utf8: bool, crlf: bool, out: &mut Outcome) {
+    let mut lines = text_lines(runs, long_line, bed, utf8);
+    if crlf {
+        // CR LF line ends: the CR is the last byte of every terminated line
+        let n = lines.len();
+        for (i, l) in lines.iter_mut().enumerate() {
+            if final_newline || i + 1 < n {
+                l.push('\r');
+            }
+        }
+    }
     let bytes = text_bytes(&lines, final_newline);
     let mut tf = tempfile::NamedTempFile::new().expect("tempfile");
     tf.write_all(&bytes).unwrap();
@@ -611,9 +623,12 @@ impl Check for C18 {
                         if quick && bed && ll.is_some() && !final_newline {
                             continue;
                         }
-                        v.push(C18Case::Text { runs: runs.clone(), long_line: ll, final_newline, bed, utf8: false });
+                        v.push(C18Case::Text { runs: runs.clone(), long_line: ll, final_newline, bed, utf8: false, crlf: false });
+                        if ll.is_none() || ll.map(|x| x.1) == Some(3) {
+                            v.push(C18Case::Text { runs: runs.clone(), long_line: ll, final_newline, bed, utf8: false, crlf: true });
+                        }
                         if bed && final_newline && (ll.is_none() || ll.map(|x| x.1) == Some(3)) {
-                            v.push(C18Case::Text { runs: runs.clone(), long_line: ll, final_newline, bed, utf8: true });
+                            v.push(C18Case::Text { runs: runs.clone(), long_line: ll, final_newline, bed, utf8: true, crlf: false });
                         }
                     }
                 }
@@ -621,8 +636,8 @@ impl Check for C18 {
         }
         // one larger file: many lines per run, so that probes land well inside runs
         for final_newline in [true, false] {
-            v.push(C18Case::Text { runs: vec![(0, 40), (1, 1), (2, 25), (3, 2)], long_line: Some((41, 40)), final_newline, bed: false, utf8: false });
-            v.push(C18Case::Text { runs: vec![(0, 40), (1, 1), (2, 25), (3, 2)], long_line: Some((41, 40)), final_newline, bed: true, utf8: true });
+            v.push(C18Case::Text { runs: vec![(0, 40), (1, 1), (2, 25), (3, 2)], long_line: Some((41, 40)), final_newline, bed: false, utf8: false, crlf: false });
+            v.push(C18Case::Text { runs: vec![(0, 40), (1, 1), (2, 25), (3, 2)], long_line: Some((41, 40)), final_newline, bed: true, utf8: true, crlf: false });
         }
         let depth = if quick { 2 } else { 3 };
         for a in 0..=10u64 {
@@ -634,7 +649,7 @@ impl Check for C18 {
     }
     fn run(&self, case: &C18Case, out: &mut Outcome) {
         match case {
-            C18Case::Text { runs, long_line, final_newline, bed, utf8 } => c18_text(runs, *long_line, *final_newline, *bed, *utf8, out),
+            C18Case::Text { runs, long_line, final_newline, bed, utf8, crlf } => c18_text(runs, *long_line, *final_newline, *bed, *utf8, *crlf, out),
             C18Case::View { a, b, depth } => c18_view(*a, *b, *depth, out),
         }
     }
@@ -690,7 +705,7 @@ const STDIN_SPELLINGS: [&str; 3] = ["-", "stdin", "/dev/stdin"];
 
 pub struct C19;
 
-const ALPHA: [&str; 10] = ["a", " ", ";", "(", ")", "[", "]", ",", "\"", "\u{e9}"];
+const ALPHA: [&str; 11] = ["a", " ", ";", "(", ")", "[", "]", ",", "\"", "\u{e9}", "\\"];
 const PREFIXES: [&str; 6] = ["", "table t \"c\" (", "table t \"c\" ( enum(", "table t \"c\" ( set(", "table t \"c\" ( int x", "table t \"c\" ( int[ "];
 const SUFFIXES: [&str; 3] = ["", " ) ", "; \"c\" )"];
 
@@ -704,6 +719,8 @@ fn supplied_schemas() -> Vec<(String, usize)> {
         ("simple point \"a helper type\" ( int x; \"x\" int y; \"y\" )\ntable main \"rows\" ( string chrom; \"c\" uint chromStart; \"s\" uint chromEnd; \"e\" string name; \"n\" uint score; \"v\" )".to_string(), 5),
         ("object big \"seven\" ( int a; \"\" int b; \"\" int c; \"\" int d; \"\" int e; \"\" int f; \"\" int g; \"\" )\ntable small \"rows\" ( string chrom; \"c\" uint chromStart; \"s\" uint chromEnd; \"e\" string name; \"n\" )".to_string(), 4),
         ("table idx \"indexes\" ( string chrom primary; \"c\" uint chromStart index; \"s\" uint chromEnd unique; \"e\" string name index[12]; \"n\" uint id auto; \"i\" )".to_string(), 5),
+        // a backslash is an ordinary character inside a comment, also right before the closing quote
+        ("table paths\n\"where things are\"\n(\nstring chrom; \"c\"\nuint chromStart; \"s\"\nuint chromEnd; \"e\"\nstring dir; \"Source directory, e.g. C:\\data\\\"\nstring name; \"a \\ b\"\n)\n".to_string(), 5),
         // non-ASCII text inside comments (units, accented names, CJK)
         ("table unit\n\"Messwerte in \u{b5}m und \u{b0}C\"\n(\nstring chrom; \"Chromosom \u{2013} Name\"\nuint chromStart; \"d\u{e9}but\"\nuint chromEnd; \"\u{7d42}\u{4e86}\"\nstring name; \"\u{3b1}\u{3b2}\u{3b3}\"\nfloat score; \"\u{b1}1\"\nchar[1] strand; \"+/\u{2212}\"\n)\n".to_string(), 6),
         ("table t \"\u{e9}\" ( string chrom; \"\u{e9}\" uint chromStart; \"x\u{e9}\" uint chromEnd; \"\u{e9}x\" )".to_string(), 3),
